@@ -89,7 +89,7 @@ P03(def, obs) ==
      LET cs == CmdChain(Build(def, NoInherit), obs.chain, 1) IN \A i \in 1..Len(cs) : P03Level(cs[i], obs.chain[i])
 
 \* ---- C06: origin of values ------------------------------------------------------
-SplitDelim(a, vals) == IF a.delim = 0 THEN vals ELSE Concat([i \in 1..Len(vals) |-> Split(vals[i], <<a.delim>>)])
+SplitDelim(a, vals) == IF a.delim = 0 THEN vals ELSE Concat([i \in 1..Len(vals) |-> Split(vals[i], Utf8Enc(a.delim))])
 ArgPos(c, id) == FirstIdx(c.args, LAMBDA x : x.id = id)
 \* the first conditional default whose condition holds; conditions see explicit matches and the
 \* defaults of arguments defined earlier (defaults are applied in definition order)
@@ -216,6 +216,11 @@ MatchDroppingTerms(t, v, terms) ==
   IF t = <<>> THEN v = <<>>
   ELSE \/ (v # <<>> /\ Head(t) = Head(v) /\ MatchDroppingTerms(Tail(t), Tail(v), terms))
        \/ (Head(t) \in terms /\ MatchDroppingTerms(Tail(t), v, terms))
+\* a token with every occurrence of the level's declared delimiters removed
+RECURSIVE StripDelims(_, _, _)
+StripDelims(tok, poss, q) ==
+  IF q > Len(poss) THEN tok
+  ELSE StripDelims(IF poss[q].delim # 0 THEN Concat(Split(tok, Utf8Enc(poss[q].delim))) ELSE tok, poss, q + 1)
 P05(def, argv, obs, top) ==
   LET esc == EscapeAt(top) IN
   (obs.outcome = "Ok" /\ ~def.s.ignore_errors /\ esc.at # 0 /\ esc.depth <= Len(CmdChain(Build(def, NoInherit), obs.chain, 1))
@@ -241,7 +246,7 @@ P05(def, argv, obs, top) ==
         /\ IF hasDelim /\ ~dont
            THEN \* a declared delimiter may split tail values; their concatenation is still the tail
                 \E m \in 0..Len(allVals) : Concat(SubSeq(allVals, Len(allVals) - m + 1, Len(allVals)))
-                      = Concat([k \in 1..n |-> SelectSeq(tail[k], LAMBDA x : \A q \in 1..Len(poss) : x # poss[q].delim)])
+                      = Concat([k \in 1..n |-> StripDelims(tail[k], poss, 1)])
            ELSE LET rawTail == SubSeq(argv, esc.at + 1, Len(argv))
                     terms == {poss[q].term : q \in {j \in 1..Len(poss) : poss[j].term # <<>>}}
                 IN
